@@ -15,6 +15,7 @@ import (
 	"sort"
 	"strconv"
 	"strings"
+	"sync"
 	"time"
 )
 
@@ -213,6 +214,7 @@ func MainCode(specs map[string]*Spec) int {
 	replay := flag.String("replay", "", "replay file")
 	tier := flag.String("tier", "", "quick|thorough")
 	nruns := flag.Int("runs", 0, "override number of runs")
+	only := flag.Bool("only", false, "internal: execute exactly the run given by -from")
 	flag.Parse()
 	if *tier == "" {
 		*tier = os.Getenv("VERIF_TIER")
@@ -230,7 +232,7 @@ func MainCode(specs map[string]*Spec) int {
 	}
 	seed := envSeed()
 	if *worker != "" {
-		return doWorker(spec, *tier, seed, *worker, *from, *out, *nruns)
+		return doWorker(spec, *tier, seed, *worker, *from, *out, *nruns, *only)
 	}
 	return doMain(spec, *tier, seed, *nruns)
 }
@@ -246,7 +248,7 @@ func runGuarded(spec *Spec, c *Ctx, f func()) {
 	f()
 }
 
-func doWorker(spec *Spec, tier string, seed uint64, worker string, from int, out string, nruns int) int {
+func doWorker(spec *Spec, tier string, seed uint64, worker string, from int, out string, nruns int, only bool) int {
 	var k, w int
 	fmt.Sscanf(worker, "%d/%d", &k, &w)
 	n := spec.NumRuns(tier)
@@ -255,9 +257,25 @@ func doWorker(spec *Spec, tier string, seed uint64, worker string, from int, out
 	}
 	st := newStats()
 	label := HashString(spec.Property)
-	for run := k; run < n; run += w {
+	// progress file: lets the parent attribute a hard crash of this process
+	// (stack overflow, runtime fatal error, kill) to a run
+	prog, _ := os.OpenFile(out+".progress", os.O_CREATE|os.O_WRONLY, 0644)
+	startMonitor(func(c *Ctx, h HangInfo) {
+		c.Violate(h.Class, h.Key, h.Detail, h.Trace)
+		st.AbortedAt = c.Run
+		os.Exit(writeWorkerResult(st, out))
+	})
+	first := k
+	step := w
+	if only {
+		first, step, n = from, 1, from+1
+	}
+	for run := first; run < n; run += step {
 		if run < from {
 			continue
+		}
+		if prog != nil {
+			prog.WriteAt([]byte(fmt.Sprintf("%012d", run)), 0)
 		}
 		c := &Ctx{Property: spec.Property, Tier: tier, Seed: seed, Run: run, RNG: NewRNG(seed, label, uint64(run)), st: st}
 		st.Runs++
@@ -266,6 +284,10 @@ func doWorker(spec *Spec, tier string, seed uint64, worker string, from int, out
 			break
 		}
 	}
+	return writeWorkerResult(st, out)
+}
+
+func writeWorkerResult(st *stats, out string) int {
 	st.Distinct = make([]uint64, 0, len(st.dset))
 	for h := range st.dset {
 		st.Distinct = append(st.Distinct, h)
@@ -277,6 +299,67 @@ func doWorker(spec *Spec, tier string, seed uint64, worker string, from int, out
 		return 2
 	}
 	return 0
+}
+
+// Watchdog for library calls that never return. An engine brackets a library
+// call (or a short sequence of them) with Enter/Leave; a monitor goroutine in
+// the worker notices a call that has been inside for longer than the limit,
+// records it as a violation of class "hang" (the description is supplied by
+// the engine), writes the worker's results and ends the process - the stuck
+// goroutine dies with it and the parent continues behind this run. The limit
+// is a harness watchdog with a wide margin (calls take micro- to
+// milliseconds); it is never an input to any decision other than "did not
+// return".
+type HangInfo struct {
+	Class, Key, Detail string
+	Trace              interface{}
+}
+
+var watch struct {
+	mu     sync.Mutex
+	active bool
+	start  time.Time
+	info   func() HangInfo
+	c      *Ctx
+}
+
+// HangLimit is how long one bracketed library call may take.
+var HangLimit = 120 * time.Second // overridable for self-tests via VERIF_HANG_LIMIT_S
+
+func (c *Ctx) Enter(info func() HangInfo) {
+	watch.mu.Lock()
+	watch.active, watch.start, watch.info, watch.c = true, time.Now(), info, c
+	watch.mu.Unlock()
+}
+
+func (c *Ctx) Leave() {
+	watch.mu.Lock()
+	watch.active = false
+	watch.mu.Unlock()
+}
+
+// startMonitor runs in worker and replay processes. finish is called with the
+// violation once a hang is detected and must not return.
+func startMonitor(finish func(c *Ctx, h HangInfo)) {
+	if v, err := strconv.Atoi(os.Getenv("VERIF_HANG_LIMIT_S")); err == nil && v > 0 {
+		HangLimit = time.Duration(v) * time.Second
+	}
+	go func() {
+		for {
+			time.Sleep(2 * time.Second)
+			watch.mu.Lock()
+			if watch.active && time.Since(watch.start) > HangLimit {
+				c, info := watch.c, watch.info
+				watch.active = false
+				watch.mu.Unlock()
+				h := info()
+				h.Detail = fmt.Sprintf("a library call did not return within %v: %s", HangLimit, h.Detail)
+				finish(c, h)
+				return
+			}
+			watch.mu.Unlock()
+		}
+	}()
 }
 
 // Hang marks the current run as hung; the worker stops after this run and the
@@ -330,6 +413,7 @@ func doMain(spec *Spec, tier string, seed uint64, nruns int) int {
 		go func(k int) {
 			total := newStats()
 			from := 0
+			hangs := 0
 			for {
 				out := filepath.Join(tmp, fmt.Sprintf("w%d-%d.json", k, from))
 				args := []string{"-prop", spec.Property, "-tier", tier, "-worker", fmt.Sprintf("%d/%d", k, w), "-from", strconv.Itoa(from), "-out", out}
@@ -355,12 +439,32 @@ func doMain(spec *Spec, tier string, seed uint64, nruns int) int {
 				}
 				b, rerr := ioutil.ReadFile(out)
 				if rerr != nil {
-					if werr == nil {
-						werr = rerr
+					// the worker died without a result: attribute the crash to a run
+					pb, perr := ioutil.ReadFile(out + ".progress")
+					if perr != nil || strings.Contains(fmt.Sprint(werr), "harness watchdog") {
+						if werr == nil {
+							werr = rerr
+						}
+						ch <- res{nil, fmt.Errorf("worker %d: %v", k, werr)}
+						return
 					}
-					ch <- res{nil, fmt.Errorf("worker %d: %v", k, werr)}
-					return
+					r, _ := strconv.Atoi(strings.TrimLeft(string(pb), "0"))
+					os.Remove(out + ".progress")
+					detail, again := rerunSingle(self, spec, tier, seed, k, w, r, tmp, gmp)
+					if again != nil {
+						mergeStats(total, again) // it completed this time: transient
+					} else {
+						v := Violation{spec.Property, "crash", "crash", fmt.Sprintf("the process executing run %d died (twice) instead of returning: %s", r, detail), r, json.RawMessage(`{"rerun":true}`)}
+						total.Violations = append(total.Violations, v)
+						total.Counters["violations_raised"]++
+					}
+					from = r + 1
+					if from >= spec.NumRuns(tier) || (nruns > 0 && from >= nruns) {
+						break
+					}
+					continue
 				}
+				os.Remove(out + ".progress")
 				st := newStats()
 				if err := json.Unmarshal(b, st); err != nil {
 					ch <- res{nil, err}
@@ -370,6 +474,12 @@ func doMain(spec *Spec, tier string, seed uint64, nruns int) int {
 				mergeStats(total, st)
 				if st.AbortedAt >= 0 && st.Fatal == "" {
 					from = st.AbortedAt + 1
+					hangs++
+					if hangs >= 3 {
+						// repeated hangs: stop this shard, what was found is reported
+						total.Counters["shards_stopped_after_repeated_hangs"]++
+						break
+					}
 					continue
 				}
 				break
@@ -444,6 +554,47 @@ func doMain(spec *Spec, tier string, seed uint64, nruns int) int {
 	return exit
 }
 
+// rerunSingle executes exactly one run in a fresh process. It returns the
+// stats if the process completed, or a description of how it died.
+func rerunSingle(self string, spec *Spec, tier string, seed uint64, k, w, run int, tmp, gmp string) (string, *stats) {
+	out := filepath.Join(tmp, fmt.Sprintf("single-%d.json", run))
+	os.Remove(out)
+	cmd := exec.Command(self, "-prop", spec.Property, "-tier", tier, "-worker", fmt.Sprintf("%d/%d", k, w), "-from", strconv.Itoa(run), "-only", "-out", out)
+	var buf strings.Builder
+	cmd.Stderr = &buf
+	cmd.Env = append(os.Environ(), "VERIF_SEED="+strconv.FormatUint(seed, 10), "GOMAXPROCS="+gmp)
+	done := make(chan error, 1)
+	if err := cmd.Start(); err != nil {
+		return err.Error(), nil
+	}
+	go func() { done <- cmd.Wait() }()
+	var werr error
+	select {
+	case werr = <-done:
+	case <-time.After(20 * time.Minute):
+		cmd.Process.Kill()
+		<-done
+		werr = fmt.Errorf("did not finish within 20 minutes")
+	}
+	defer os.Remove(out + ".progress")
+	if b, err := ioutil.ReadFile(out); err == nil {
+		st := newStats()
+		if json.Unmarshal(b, st) == nil {
+			os.Remove(out)
+			return "", st
+		}
+	}
+	msg := buf.String()
+	// keep the head of the runtime's message (the reason) and drop the goroutine dump
+	if i := strings.Index(msg, "\ngoroutine "); i > 0 {
+		msg = msg[:i]
+	}
+	if len(msg) > 600 {
+		msg = msg[:600]
+	}
+	return fmt.Sprintf("%v: %s", werr, strings.TrimSpace(msg)), nil
+}
+
 func mergeStats(a, b *stats) {
 	a.Evaluations += b.Evaluations
 	a.Steps += b.Steps
@@ -510,8 +661,33 @@ func doReplay(specs map[string]*Spec, path string) int {
 		fmt.Fprintf(os.Stderr, "replay: property %s not served by this engine\n", rf.Property)
 		return 2
 	}
+	if strings.Contains(string(rf.Trace), `"rerun"`) {
+		// a crash is replayed by re-executing the run (a pure function of seed and code) in a child process
+		self, _ := os.Executable()
+		tmp, _ := ioutil.TempDir("", "verif-replay-")
+		defer os.RemoveAll(tmp)
+		detail, st := rerunSingle(self, spec, rf.Tier, rf.Seed, 0, 1, rf.Run, tmp, "2")
+		if st == nil {
+			fmt.Printf("VIOLATION property=%s replay=%s\n  class=crash key=crash\n  %s\n", rf.Property, path, detail)
+			return 1
+		}
+		if len(st.Violations) > 0 {
+			v := st.Violations[0]
+			fmt.Printf("VIOLATION property=%s replay=%s\n  class=%s key=%s\n  %s\n", rf.Property, path, v.Class, v.Key, v.Detail)
+			return 1
+		}
+		fmt.Printf("replay of %s: run %d completes on this tree\n", path, rf.Run)
+		return 0
+	}
 	st := newStats()
 	c := &Ctx{Property: rf.Property, Tier: rf.Tier, Seed: rf.Seed, Run: rf.Run, RNG: NewRNG(rf.Seed, HashString(rf.Property), uint64(rf.Run)), st: st, Replay: true}
+	startMonitor(func(c *Ctx, h HangInfo) {
+		fmt.Printf("VIOLATION property=%s replay=%s\n  class=%s key=%s\n  %s\n", rf.Property, path, h.Class, h.Key, h.Detail)
+		if h.Class == rf.Class {
+			os.Exit(1)
+		}
+		os.Exit(1)
+	})
 	runGuarded(spec, c, func() { spec.Replay(c, rf.Trace) })
 	if st.Fatal != "" {
 		fmt.Fprintf(os.Stderr, "HARNESS-ERROR %s\n", st.Fatal)
